@@ -415,7 +415,7 @@ pub fn prop() -> Prop {
     Prop {
         id: ID,
         rule: "documents whose member names include /, ~, ~0, ~1, empty, numeric and escape-needing names, depth <= 4; for EVERY node location: reference(normalized path) must be that node by address, and a write through reference_mut must change exactly that node (whole-document comparison with a model); \
-               non-existent locations derived from real ones (index = len / > len, absent name, name on array incl. numeric names, index on object, JSON-Pointer confusions such as a/b and ~1, steps below scalars) must yield None and leave the document unchanged; \
+               non-existent locations derived from real ones (index = len / > len, absent name, name on array incl. numeric names, index on object, JSON-Pointer confusions such as a/b and ~1, steps below scalars, a negative index below the start of the array) must yield None and leave the document unchanged; \
                histories: one query_only_path, then up to 6 writes through the returned paths (a write may replace a container and make later paths dangling), compared with a model after every step. \
                Non-trivial: location depth >= 2, or a non-plain name, or a non-existent location, or a history. Distinct by (path, document).",
         assumptions: vec![
